@@ -106,6 +106,12 @@ AXIOMS += [
      "  unfold FacDiff\n  rw [e1, e2, e3]\n  unfold FacS\n  rw [← Finset.prod_div_distrib]\n"
      "  apply Finset.prod_congr rfl\n  intro k _\n  simp only [one_mul, hw k, Real.rpow_eq_pow]\n"
      "  exact Real.rpow_sub (hpos k) (u k) (v k)"),
+    # ... and, being that ratio, it gives the first factor back when multiplied by the second
+    ("facdiff", "facdiff_ratio",
+     ("forall", V("P:Set", "u:Map", "Q:Set", "v:Map"),
+      ("=>", ("<", ("num", 0), app("FacS", "Q", "v", ("num", 1))),
+       ("=", ("*", app("FacDiff", "P", "u", "Q", "v"), app("FacS", "Q", "v", ("num", 1))), app("FacS", "P", "u", ("num", 1))))),
+     "by\n  intro P u Q v h\n  unfold FacDiff\n  exact div_mul_cancel₀ _ (ne_of_gt h)"),
 ]
 
 LEAN_PRELUDE = """import Mathlib
